@@ -3,6 +3,7 @@
 // sequential model, and every wrapper's result is compared bit for bit with the C++ <double> call it stands for.
 #include "ops.hpp"
 #include <cstring>
+#include <cmath>
 
 // ---- C entry points (weak: a wrapper that disappeared is a violation at run time, not a link failure)
 extern "C" {
@@ -107,6 +108,21 @@ struct CSide {
     std::string n = o.pick_name(); if (n.empty()) return;
     auto& in = m.cur();
     double v = draw_value<double>(in.sc0[n], false);
+    // a third of the writes are a NEIGHBOUR of the value currently stored (one ulp, relative 1e-15 ... 1e-5, the other sign, the other zero):
+    // a write that is "redundant" up to a tolerance must still be stored bit for bit (seeded C17-m11)
+    if (R->below(3) == 0 && in.sc.count(n)) {
+      const double cur = in.sc[n];
+      static const double REL[] = {1e-15, 4e-13, 4e-11, 9e-11, 1e-9, 1e-7, 1e-5};
+      double w = cur;
+      switch (R->below(6)) {
+        case 0: w = std::nextafter(cur, R->coin() ? INFINITY : -INFINITY); break;
+        case 1: case 2: w = cur * (1 + (R->coin() ? 1 : -1) * REL[R->below(7)]); break;
+        case 3: w = -cur; break;                                   // same magnitude, other sign (and -0.0 over +0.0)
+        case 4: w = (cur == 0) ? (std::signbit(cur) ? 0.0 : -0.0) : cur + (R->coin() ? 1 : -1) * std::fabs(cur) * 0x1p-52; break;
+        case 5: w = (cur == 0) ? (R->coin() ? 5e-324 : -1e-300) : cur * (1 + 0x1p-40); break;
+      }
+      if (std::isfinite(w) && !biteq(w, cur)) { v = w; LOG.count("neighbour_writes(value within 1e-5 relative of the stored one)", 1); }
+    }
     n_store++;
     if (R->coin()) {
       hist("C masa_set_param(\"" + n + "\") then C++ masa_get_param on " + m.sel + ":" + in.sol);
